@@ -176,7 +176,8 @@ impl<const LIMBS: usize> Int<LIMBS> {
 
         // Negate output when lhs and rhs have opposing signs.
         let quotient = Int::new_from_abs_sign(quotient, opposing_signs);
-        let remainder = remainder.as_int().wrapping_neg_if(opposing_signs); // rem always small enough for safe as_int conversion
+        // The remainder of a floored division takes the sign of the divisor.
+        let remainder = remainder.as_int().wrapping_neg_if(rhs_sgn); // rem always small enough for safe as_int conversion
 
         (quotient, remainder)
     }
@@ -246,7 +247,7 @@ impl<const LIMBS: usize> Int<LIMBS> {
     ///
     /// let (quotient, remainder) = I128::from(-8).checked_div_rem_floor(&three);
     /// assert_eq!(quotient.unwrap(), I128::from(-3));
-    /// assert_eq!(remainder, I128::from(-1));
+    /// assert_eq!(remainder, I128::from(1));
     ///
     /// let minus_three = I128::from(-3).to_nz().unwrap();
     /// let (quotient, remainder) = I128::from(8).checked_div_rem_floor(&minus_three);
@@ -255,7 +256,7 @@ impl<const LIMBS: usize> Int<LIMBS> {
     ///
     /// let (quotient, remainder) = I128::from(-8).checked_div_rem_floor(&minus_three);
     /// assert_eq!(quotient.unwrap(), I128::from(2));
-    /// assert_eq!(remainder, I128::from(2));
+    /// assert_eq!(remainder, I128::from(-2));
     /// ```
     pub const fn checked_div_rem_floor(&self, rhs: &NonZero<Self>) -> (ConstCtOption<Self>, Self) {
         let (lhs_mag, lhs_sgn) = self.abs_sign();
@@ -277,7 +278,8 @@ impl<const LIMBS: usize> Int<LIMBS> {
 
         // Negate output when lhs and rhs have opposing signs.
         let quotient = Int::new_from_abs_sign(quotient, opposing_signs);
-        let remainder = remainder.as_int().wrapping_neg_if(opposing_signs); // rem always small enough for safe as_int conversion
+        // The remainder of a floored division takes the sign of the divisor.
+        let remainder = remainder.as_int().wrapping_neg_if(rhs_sgn); // rem always small enough for safe as_int conversion
 
         (quotient, remainder)
     }
